@@ -324,7 +324,12 @@ def part_triples(ctx, shard):
                     continue
                 orig = triple(x[1])
                 case = {"part": "triple", "u": n1, "v": n2, "how": how}
-                s = attempt(lambda: Unit(x[1].expr, x[1].base_value, x[1].base_offset, x[1].dimensions, x[1].registry).simplify())
+                def _hashed_then_simplified():
+                    xc = Unit(x[1].expr, x[1].base_value, x[1].base_offset, x[1].dimensions, x[1].registry)
+                    hash(xc)  # used as a dict / lru key first (every ufunc does this), then simplified in place
+                    return xc.simplify()
+
+                s = attempt(_hashed_then_simplified)
                 ctx.count("transitions", 2)
                 if s[0] == "error":
                     ctx.violation(f"C05|law=simplify|how={how}|mode=escaped-exception:{s[1]}", case, None, None)
@@ -333,6 +338,10 @@ def part_triples(ctx, shard):
                     continue
                 ctx.decided(("simplify", n1, n2, how))
                 su = s[1]
+                # the simplified unit hashes like any other unit with that expression in that registry
+                fresh = attempt(lambda: Unit(str(su.expr), registry=su.registry))
+                if fresh[0] == "ok" and str(fresh[1].expr) == str(su.expr) and fresh[1] == su and hash(fresh[1]) != hash(su):
+                    ctx.violation(f"C05|law=hash|how={how}|mode=simplified-unit-keeps-the-hash-of-its-old-expression", case, str(su.expr), None)
                 if triple(su)[:2] != orig[:2]:
                     ctx.violation(f"C05|law=simplify|how={how}|mode=value-changed", case, orig, triple(su))
                 check_state(ctx, su, "simplify", case, 2)
